@@ -7,7 +7,7 @@ HOOKS = {
 }
 
 ENGINES = [
-    {"name": "schedmc", "path": "/verif/schedmc", "serves_properties": ["C03", "C06", "C07", "C09", "C11", "C19", "C20"],
+    {"name": "schedmc", "path": "/verif/schedmc", "serves_properties": ["C03", "C04", "C06", "C07", "C09", "C11", "C18", "C19", "C20"],
      "kind_free_text": "Engine B: controlled-scheduler model checker for the real mpx/rpc code: a go/ast instrumenter rewrites sync, sync/atomic, go, select and channel operations of mpx, rpc, internal/writer and the baselibrary primitives to shims of a cooperative scheduler (injected by go build -overlay); stateless DFS over schedules with preemption / free-switch / environment-deviation bounds; fake transport, virtual time, deterministic LIFO pools; explicit-state BFS over event sequences for flow control; TLA+/TLC model bound to the code by edge-by-edge graph comparison"},
     {"name": "seqmc", "path": "/verif/seqmc", "serves_properties": ["C01", "C02", "C08", "C10", "C12", "C13", "C17"],
      "kind_free_text": "Engine A: bounded-exhaustive sequential explorer (deterministic enumerators over boundary alphabets, sharded worker processes, guard-page memory, explicit-state BFS over operation sequences with replay on fresh instances)"},
@@ -18,6 +18,18 @@ NOTES = "All checks are driven by bin/vcheck (lib/vcheck.py): it rebuilds the en
 NOT_APPLICABLE = {}
 
 CHECKS = {
+    "C04": {
+        "engine": "schedmc", "level": "model_checking", "design_ref": "DESIGN.md §P C04",
+        "technique": "stateless model checking under a controlled scheduler of the real rpc client/server over real mpx connections: all schedules (preemption bound 1) of every ordered pair/triple of concurrent call kinds, checked against a sequential specification keyed by call id; exhaustive malformed-reply and byte-offset connection-loss enumeration",
+        "text": "Every ordered pair (thorough: triple) of concurrent calls from {unary ok, application status code+message, handler panic, oneway, client-streaming, server-streaming, early response} runs over MaxConns 1/2 followed by a late call on recycled call states; each caller must observe exactly what the handler invocation carrying its id produced (result bytes, code, message, stream order before the end marker); handlers run exactly once per request; rpc response frames on the wire are counted (a oneway call yields none). Seven malformed replies from an mpx-level scripted server must surface as non-OK, never as OK or a panic. With a unary and a server-streaming call in flight the transport is cut / half-closed after every byte offset: calls return, and an OK result is always the caller's own.",
+        "note": "Dialling is replaced by a scheduler-controlled connector; preemption bound 1 in both tiers for the wide scenario (thorough adds free switches, environment deviations and a third call).",
+    },
+    "C18": {
+        "engine": "schedmc", "level": "model_checking", "design_ref": "DESIGN.md §P C18",
+        "technique": "stateless model checking under a controlled scheduler with deterministic LIFO pools: all schedules (preemption bound 2/3, scheduling points at every pool Get/Put) of pairs of writer programs; all ordered program pairs sequentially; channel-state recycling on a live connection with a fresh-state invariant at every acquire; plus an auxiliary free-running -race pass",
+        "text": "58 writer programs (constructor x body x ending, incl. failing midway, abandoning an open container, growing tables, Copy, never releasing) are run (a) in all ordered pairs back to back on the LIFO pools and (b) in all unordered pairs on two threads, twice each, with scheduling points between operations and at every pool Get/Put: every result must equal the program run alone. On a live connection two users open/use/close channels for several rounds with window traffic, so channel states pass through the pool between users: every newly acquired state (client and server side) must equal a fresh one (window, counters, wake-up slot, flags, queue, context) and every echo must be the caller's own. RPC call-state reuse is exercised by the late call of C04. An auxiliary free-running build with -race (sampled) looks for unsynchronised accesses inside the module.",
+        "note": "sync.Pool is replaced by an adversarial LIFO pool; the race pass is wall-clock sampled and is auxiliary evidence only.",
+    },
     "C03": {
         "engine": "schedmc", "level": "model_checking", "design_ref": "DESIGN.md §P C03",
         "technique": "stateless model checking under a controlled scheduler: exhaustive DFS over all schedules (bounds p,f,e = 1,1,1 quick / 2,1,1 thorough) of a real client conn and server conn with their real loops over a fake transport, for a configuration alphabet of window/queue/buffer/compression/short-read settings",
